@@ -420,21 +420,20 @@ def tChild {L} (root : String) (steps : List (Step L)) (st : Step L) : Option (L
   | .call _ _ | .star | .starstar => if root == "A" then none else some (steps ++ [st])
   | _ => some (steps ++ [st])
 
+/-- one iteration of the loop over the remaining parts in `Path.__init__` -/
+def pathStep {L} (acc : String × List (Step L)) (part : Part L) : Option (String × List (Step L)) :=
+  match part with
+  | .plain v => (tChild acc.1 acc.2 (.seg v)).map (fun s => (acc.1, s))
+  | .texpr r s | .path r s =>
+    if r != "T" then none             -- 'path segment must be path from T'
+    else (s.foldlM (fun steps st => tChild acc.1 steps st) acc.2).map (fun s' => (acc.1, s'))
+
 /-- `Path(*parts).path_t.__ops__`; `none` is the ValueError / BadSpec -/
 def pathInit {L} (parts : List (Part L)) : Option (String × List (Step L)) :=
   match parts with
   | [] => some ("T", [])
-  | first :: others =>
-    let (start, rest) : (String × List (Step L)) × List (Part L) :=
-      match first with
-      | .texpr r s => ((r, s), others)      -- isinstance(path_parts[0], TType): offset = 1
-      | _ => (("T", []), parts)
-    rest.foldlM (fun (acc : String × List (Step L)) part =>
-      match part with
-      | .plain v => (tChild acc.1 acc.2 (.seg v)).map (fun s => (acc.1, s))
-      | .texpr r s | .path r s =>
-        if r != "T" then none             -- 'path segment must be path from T'
-        else (s.foldlM (fun steps st => tChild acc.1 steps st) acc.2).map (fun s' => (acc.1, s'))) start
+  | .texpr r s :: others => others.foldlM pathStep (r, s)   -- isinstance(path_parts[0], TType): offset = 1
+  | parts => parts.foldlM pathStep ("T", [])
 
 /-- the whole text — `eval(repr)`: a T expression, or `Path( … )` -/
 def parseObj {L} : List (Tok L) → Option (Obj L)
